@@ -302,6 +302,7 @@ func (m *machine) step(t *rapid.T) {
 	// command
 	cmd := model.CmdType{}
 	var payload any
+	restrictedRead := false
 	var regKey string // for subscription / binding calls: the registry entry concerned
 	regKind, regAdd := "", false
 	switch {
@@ -315,6 +316,16 @@ func (m *machine) step(t *rapid.T) {
 			payload = m.payload(t, f, "payload")
 		}
 		reflect.ValueOf(&cmd).Elem().FieldByName(f.CmdField).Set(reflect.ValueOf(payload))
+		if cl == model.CmdClassifierTypeRead && f.IsList && listgen.CapsOf(f).Selectors && rapid.IntRange(0, 3).Draw(t, "restrictedRead") == 0 {
+			// a read restricted by a selector, in the form the stack's own RequestRemoteData writes it: a partial
+			// filter with the selector and an empty function element. It is a read of that function all the same
+			flt := model.NewFilterTypePartial()
+			reflect.ValueOf(flt).Elem().FieldByName(f.SelectorsField).Set(listgen.SelectorFor(f, make([]uint64, len(f.KeyFields))))
+			cmd.Filter = []model.FilterType{*flt}
+			cmd.Function = util.Ptr(model.FunctionType(""))
+			restrictedRead = true
+			world.Label("read/restricted-by-selector")
+		}
 	default:
 		switch fn {
 		case model.FunctionTypeNodeManagementDetailedDiscoveryData:
@@ -527,7 +538,8 @@ func (m *machine) step(t *rapid.T) {
 			if err != nil || data.Function == nil || *data.Function != fn {
 				world.Fail(t, "C01/reply-function", "the reply does not carry the addressed function %s%s", fn, desc())
 			}
-			if beforeLocal != "" || f != nil {
+			// (which part of the data the reply to a restricted read carries is not stated: not compared)
+			if (beforeLocal != "" || f != nil) && !restrictedRead {
 				got := world.JSON(data.Value)
 				if got != beforeLocal && !(beforeLocal == "null" && got == "{}") {
 					world.Fail(t, "C01/reply-payload", "the reply payload differs from the function's current data\n reply:  %s\n stored: %s%s", got, beforeLocal, desc())
